@@ -55,8 +55,8 @@ type RunResult struct {
 }
 
 // groupTargets maps a model group to real API targets.
-var groupRID = map[string]string{"g1": "test.r.a", "g2": "test.q.b", "par": "test.par.c", "g3": "test.sub.x.d", "g4": "test.adm.x", "g5": "test.sub.late.e", "g6": "test"}
-var groupID = map[string]string{"g1": "test.r.a", "g2": "grp.b", "par": "", "g3": "deep.d", "g4": "ten.adm", "g5": "test.sub.late.e", "g6": "test"}
+var groupRID = map[string]string{"g1": "test.r.a", "g2": "test.q.b", "par": "test.par.c", "g3": "test.sub.x.d", "g4": "test.adm.x", "g5": "test.sub.late.e", "g6": "test", "g7": "test.lib.s1.b1", "g8": "test.u.7"}
+var groupID = map[string]string{"g1": "test.r.a", "g2": "grp.b", "par": "", "g3": "deep.d", "g4": "ten.adm", "g5": "test.sub.late.e", "g6": "test", "g7": "bk.b1", "g8": "u.7"}
 
 // Scenario is one service instance with monitors.
 type Scenario struct {
@@ -179,6 +179,10 @@ func NewScenario(tr *Tracer, prog Program) *Scenario {
 	// registered on the service after the mount, with a pattern that passes through the mount point:
 	// no Group option, so every resource is its own worker group
 	s.Handle("sub.late.$id", res.GetResource(handler), res.Call("m", call), acc)
+	// a group option that spells out the handler's own pattern (without the service name)
+	s.Handle("u.$id", res.GetResource(handler), res.Call("m", call), acc, res.Group("u.${id}"))
+	// a group built from a tag whose name starts like the name of an earlier tag of the pattern
+	s.Handle("lib.$bookshelf.$book", res.GetResource(handler), res.Call("m", call), acc, res.Group("bk.${book}"))
 	// the resource whose name is the service name itself (handler on the mux root), default group
 	s.Handle("", res.GetResource(handler), res.Call("m", call), acc)
 	sc.svc = s
@@ -198,6 +202,9 @@ func (sc *Scenario) submit(cb string, sub Sub) {
 	gid := groupID[sub.Group]
 	if sub.Group == "g2" && len(cb)%2 == 0 {
 		rid = "test.s.7" // another resource of the same worker group
+	}
+	if sub.Group == "g7" && len(cb)%2 == 0 {
+		rid = "test.lib.s2.b1" // another shelf, the same book: the same worker group
 	}
 	if sub.Group == "g4" && len(cb)%2 == 0 {
 		rid = "test.adm.y" // enters the mounted "adm" mux, matches nothing there, falls back to $tenant.$doc
